@@ -1,20 +1,23 @@
 (* C18 — correspondence: the lexer model and the Spec evaluated on the token streams the real lexer returned *)
-From Coq Require Import List Arith Bool String.
+From Coq Require Import List Arith NArith Bool String.
 Import ListNotations.
 From V.gen Require Import TokenTable.
 From V.Lexer Require Import Model Hex.
 From V.C18 Require Import Spec.
 
 (* one real token: type, start, end, line, literal (hex) *)
-Definition rtok := (nat * nat * nat * nat * string)%type.
+Definition rtok := (N * N * N * N * string)%type.      (* binary numbers: large nat literals are slow to check *)
 Definition of_rtok (r : rtok) : tok :=
-  let '(t, a, b, l, h) := r in mkTok t (unhex h) a b l.
+  let '(t, a, b, l, h) := r in mkTok t (unhex h) (N.to_nat a) (N.to_nat b) (N.to_nat l).
 
 Inductive robs := RToks (ts : list rtok) | RPanic.
 Record case := { template : bool; src : string; real : robs }.
 
+(* a = model token, b = real token *)
 Definition tok_eqb (a b : tok) : bool :=
-  (ty a =? ty b) && (st a =? st b) && (en a =? en b) && (ln a =? ln b) && list_eqb (lit a) (lit b).
+  (st a =? st b) && (en a =? en b) && (ln a =? ln b) &&
+  (if ty a =T T_FUZZY then (ty b =T T_STRING) || (ty b =T T_INTERPOLATION_TOKEN)
+   else (ty a =T ty b) && list_eqb (lit a) (lit b)).
 Fixpoint toks_eqb (a b : list tok) : bool :=
   match a, b with
   | [], [] => true
